@@ -126,9 +126,9 @@ pub fn generate_with(ctx: &mut Ctx, which: Which, tweak: impl FnOnce(&mut scen::
     // (C06/C07: a run of adjacent chunks of more than a MiB as stored needs a source of MiBs)
     let big = gen::chance(1, if ctx.tier == crate::harness::Tier::Thorough { 40 } else if matches!(which, Which::C06) { 200 } else { 600 });
     let max_len = if big { 3 << 20 } else { 64 * 1024 };
-    // one in 600 (C06: 300): tens of thousands of tiny chunks, so that the header alone is more
+    // one in 600 (C06: 150): tens of thousands of tiny chunks, so that the header alone is more
     // than a MiB -- more than one buffer's worth for anything that reads it
-    if !big && matches!(which, Which::C06 | Which::C02) && gen::chance(1, if matches!(which, Which::C06) { 300 } else { 600 }) {
+    if !big && matches!(which, Which::C06 | Which::C02) && gen::chance(1, if matches!(which, Which::C06) { 150 } else { 600 }) {
         simkit::count("probe:header-larger-than-1MiB");
         let mut spec = scen::gen_compress_spec(false, false);
         tweak(&mut spec);
@@ -191,6 +191,26 @@ pub fn generate_from(ctx: &mut Ctx, which: Which, made: Made) -> Option<Fam> {
     } else {
         None
     };
+    // chunks of MiBs that have to move by much less than their own size: a few bytes to a few
+    // hundred KiB were removed from (or added to) the old version somewhere in front of them
+    if seed_output && unit >= (256 << 10) && made.source.len() > (1 << 20) && made.spec.cfg.algo != gen::Algo::Fixed && gen::chance(1, 2) {
+        let src = &made.source;
+        let at = gen::draw((src.len() / 4) as u32) as usize;
+        let n = 1 + gen::draw(*gen::t(|t| t.pick(&[100u32, 5000, 300_000]))) as usize;
+        let mut p = src[..at].to_vec();
+        if gen::chance(1, 2) {
+            // the old version lacks n bytes: everything behind moves up
+            p.extend_from_slice(&src[(at + n).min(src.len())..]);
+        } else {
+            // the old version has n bytes more: everything behind moves down
+            let mut extra = vec![0u8; n];
+            simkit::prng::Rng::new(gen::t(|t| t.seed64())).fill(&mut extra);
+            p.extend_from_slice(&extra);
+            p.extend_from_slice(&src[at..]);
+        }
+        prior = Some(p);
+        simkit::count("probe:huge-chunks-shifted-by-less-than-their-size");
+    }
     if blockdev {
         // a device at least as large as the source
         let p = prior.get_or_insert_with(Vec::new);
